@@ -1053,7 +1053,6 @@ fn make_send(ctx: &Rc<Ctx>, snd: &mut Senders, c: &Value) -> Result<Option<SFut>
 fn mqtt_cfg(cfg: &Value) -> (MqttServiceConfig, IoConfig) {
     let gi = |k: &str, d: i64| cfg.get(k).and_then(Value::as_i64).unwrap_or(d);
     let mut m = MqttServiceConfig::new()
-        .set_max_qos(qos_of(gi("max_qos", 2)))
         .set_max_size(gi("max_size", 0) as u32)
         .set_max_receive(gi("max_receive", 16) as u16)
         .set_max_receive_size(gi("max_receive_size", 65535) as usize)
@@ -1063,6 +1062,9 @@ fn mqtt_cfg(cfg: &Value) -> (MqttServiceConfig, IoConfig) {
         .set_max_payload_buffer_size(gi("max_payload_buffer", 32 * 1024) as usize)
         .set_connect_timeout(Seconds(gi("connect_timeout", 0) as u16))
         .set_handshake_timeout(Seconds(gi("handshake_timeout", 0) as u16));
+    if gi("max_qos", -1) >= 0 {
+        m = m.set_max_qos(qos_of(gi("max_qos", 2)));
+    }
     let hq = gi("handle_qos_after_disconnect", -1);
     if hq >= 0 {
         m = m.set_handle_qos_after_disconnect(Some(qos_of(hq)));
